@@ -3,5 +3,7 @@ CONSTANTS
   MaxOps = 4
   MoreOnLast = TRUE
   EofForZeroCols = FALSE
+  Recover = TRUE
+  LeakHeader = FALSE
 INVARIANTS P_C03 P_Shape
 CHECK_DEADLOCK FALSE
